@@ -341,6 +341,15 @@ theorem get_instance_fresh {Val St : Type} (table : String → Option ClassInfo)
       rw [c2]; cases ci.storeArgs <;> rfl
     simp [getInstance, Obj.afterFit, c1, ht, hst, hc]
 
+/-- the source of `utils.get_instance` / `utils.store_args` has the shape `getInstance` / `construct`
+model (read off the AST): the four constructor calls — by name, by class, instance with kwargs,
+instance with the recorded `__args__/__kwargs__` (defaults `()`/`{}`) — and nothing else; and
+`store_args` records `deepcopy`s taken before `__init__` runs. -/
+theorem get_instance_shape :
+    Gen.Lifecycle.getInstanceForms = ["byName", "byClass", "byInstanceKwargs", "byInstanceStored"] ∧
+    Gen.Lifecycle.getInstanceReadsStored = true ∧ Gen.Lifecycle.storeArgsDeepCopies = true := by
+  decide
+
 /-- instance at the generated table: every class row resolves to itself by its bare name, so
 `get_instance_fresh` applies to each class of the library. -/
 theorem get_instance_fresh_gen :
